@@ -153,10 +153,12 @@ PROPS = {
                      "on/nativeOn under transformOn is an attribute value: strict source order"],
     ),
     "C13": dict(
-        mc=[dict(module="MC_C13F", heap="10g"), dict(module="MC_C13")], judge="Judge_C13", want=["js"],
+        mc=[dict(module="MC_C13F", heap="10g"), dict(module="MC_C13S", heap="10g"), dict(module="MC_C13")], judge="Judge_C13", want=["js"],
         rule="TLC model-checks AttrsFold.tla (the transform_attrs fold, one step per attribute) over every enumerated attribute "
              "sequence — AgreesWithOperator, Sound (the model's own flags satisfy the property's clauses), DynNamesDistinct, "
-             "NeverNegative, Monotone — and every real run's `attrs_done` hook event is validated against the model's prediction. "
+             "NeverNegative, Monotone — and SlotFlags.tla (the slot-flag stack: push / fill / pop) over every nested component tree "
+             "under both optimize settings — StackBalancedAtEnd, PushPopMatched, FlagSoundAtPop, NoFlagsWithoutOptimize; every real "
+             "run's `attrs_done` resp. enter/fill/exit hook events are validated against the models' predictions. "
              "Inputs: attribute sequences up to the bound over {static string, value-less, constant number/array/object, undefined, "
              "dynamic identifier, call, object with a dynamic member} x {class, style, key, ref, onClick, other listener, plain, id, "
              "namespaced, onUpdate:modelValue} plus {spread, computed-key v-model, plain and :arg v-model, directive, v-show, "
